@@ -273,6 +273,9 @@ class Interp(Engine):
             return base
         if isinstance(base, (VInt, VFloat)) and attr in ("astype", "is_integer", "item", "bit_length"):
             return VBound(base, "num." + attr)
+        if isinstance(base, VOpaque):
+            # attribute of an opaque object: opaque (can only be passed on to externals)
+            return VOpaque(z3.Const(self.fresh_name("opaque_attr_" + attr), base.t.sort()), base.tag)
         raise Unsupported("attribute %r on %r" % (attr, base))
 
     def class_attr(self, selfv, cls, attr):
@@ -289,6 +292,9 @@ class Interp(Engine):
 
     def ev_Subscript(self, node):
         base = self.force(self.ev(node.value))
+        if isinstance(base, VOpaque):
+            # indexing / slicing an opaque (numpy) array: a fresh opaque value of the same sort
+            return VOpaque(z3.Const(self.fresh_name("opaque_item"), base.t.sort()), base.tag)
         if isinstance(node.slice, ast.Slice):
             return self.slice_of(base, node.slice)
         idx = self.ev(node.slice)
@@ -406,10 +412,15 @@ class Interp(Engine):
 
     def sym_slice(self, base, sl):
         """a[lo:hi] on a symbolic list with 0 <= lo <= hi <= len (proved), step 1."""
-        if not isinstance(base, VList) or sl.step is not None:
+        if isinstance(base, VOpaque):
+            # numpy slicing of an opaque array: a fresh opaque value (only ever passed on to externals)
+            return VOpaque(z3.Const(self.fresh_name("opaque_slice"), base.t.sort()), base.tag)
+        if not isinstance(base, VList):
             raise Unsupported("symbolic slice")
         st = self.to_sym_list(base)
         n = st[1]
+        if sl.step is not None:
+            return self.sym_slice_step(base, sl, st)
         lo = self.as_int(self.ev(sl.lower)).t if sl.lower is not None else z3.IntVal(0)
         hi = self.as_int(self.ev(sl.upper)).t if sl.upper is not None else n
         # python clamps; we normalise explicitly
@@ -421,6 +432,29 @@ class Interp(Engine):
         for a in st[2]:
             na = z3.Array(self.fresh_name("slice"), z3.IntSort(), a.sort().range())
             self.assume(z3.ForAll([j], z3.Select(na, j) == z3.Select(a, j + lo_n)))
+            arrs.append(na)
+        loc = self.new_loc()
+        self.lists[loc] = ["sym", ln, arrs, st[3]]
+        return VList(loc)
+
+    def sym_slice_step(self, base, sl, st):
+        """a[lo:hi:step] with step >= 1 (proved) and lo >= 0 (proved): length ceil((min(hi, len) - lo) / step) clipped at 0,
+        element j is a[lo + j * step]."""
+        n = st[1]
+        step = self.as_int(self.ev(sl.step)).t
+        lo = self.as_int(self.ev(sl.lower)).t if sl.lower is not None else z3.IntVal(0)
+        hi = self.as_int(self.ev(sl.upper)).t if sl.upper is not None else n
+        self.prove(z3.And(step >= 1, lo >= 0, hi >= 0), "model_limit", "strided slice with positive step and non-negative bounds", self.cur_line)
+        hi_n = z3.If(hi > n, n, hi)
+        span = hi_n - lo
+        ln = z3.Int(self.fresh_name("slen"))
+        # ln == ceil(span / step) for span > 0, else 0 (stated with multiplication only)
+        self.assume(z3.If(span > 0, z3.And(ln >= 1, (ln - 1) * step < span, ln * step >= span), ln == 0))
+        j = z3.Int(self.fresh_name("j"))
+        arrs = []
+        for a in st[2]:
+            na = z3.Array(self.fresh_name("slice"), z3.IntSort(), a.sort().range())
+            self.assume(z3.ForAll([j], z3.Select(na, j) == z3.Select(a, lo + j * step), patterns=[z3.Select(na, j)]))
             arrs.append(na)
         loc = self.new_loc()
         self.lists[loc] = ["sym", ln, arrs, st[3]]
@@ -2156,6 +2190,29 @@ def _list(self, args, kw):
     except ValueError:
         n, g = self.sym_iter(v)
         raise Unsupported("list() of symbolic iterable")
+
+
+@builtin(bytearray)
+def _bytearray(self, args, kw):
+    """bytearray modelled as a list of ints (the 0..255 range of stored values is not enforced by the model: contracts state it)."""
+    if not args:
+        return self.new_list([])
+    v = self.force(args[0])
+    iv = self.as_int(v) if not isinstance(v, (VList, VTuple)) else None
+    if iv is not None:
+        c = conc_int(iv.t)
+        if c is not None:
+            if c < 0:
+                raise PyRaise(ValueError, "negative count", self.cur_line)
+            return self.new_list([VInt(0)] * c)
+        if not self.branch(iv.t >= 0):
+            raise PyRaise(ValueError, "negative count", self.cur_line)
+        loc = self.new_loc()
+        self.lists[loc] = ["sym", iv.t, [z3.K(z3.IntSort(), z3.IntVal(0))], PyInt]
+        return VList(loc)
+    if isinstance(v, VList):
+        return self.list_copy(v)
+    return self.new_list(self.iter_values(v))
 
 
 @builtin(tuple)
